@@ -263,6 +263,10 @@ func (s *synRunner) checkServed(id string, as []app.VerifC15Asset, in any, timeM
 				continue
 			}
 			ms := 1000 * dur(r) / int64(r.MediaTimescale)
+			if !(r.ContentType == "audio" && ref.ContentType != "audio") && dur(r)*int64(ref.MediaTimescale) != dur(ref)*int64(r.MediaTimescale) {
+				s.c.Fail(id, "admission:looped-representation-disagrees", fmt.Sprintf("asset %s served: %s lasts %d/%d s, the reference %s %d/%d s (not equal)",
+					a.AssetPath, r.ID, dur(r), r.MediaTimescale, ref.ID, dur(ref), ref.MediaTimescale), in)
+			}
 			if r.ContentType == ref.ContentType && ms != int64(a.LoopDurMS) {
 				s.c.Fail(id, "admission:reference-type-disagrees", fmt.Sprintf("asset %s served: %s lasts %d ms, loop is %d ms",
 					a.AssetPath, r.ID, ms, a.LoopDurMS), in)
